@@ -59,17 +59,19 @@ static void opname(int op, char * buf, size_t n) {
 
 static void build_ops(void) {
     int l;
+    int rich = H <= 8;          /* the variants of the text (quotes, apostrophe, positive number, lengths beyond / equal to the text) are explored to the
+                                 * fix-point on heaps of 2..8 bytes; the larger heaps of the thorough tier use the plain texts, which keeps their spaces tractable */
     nops = 0;
     for (l = 0; l <= H; l++) { ops[nops].kind = OP_PUSH; ops[nops].len = l; nops++; }
     if (H >= 3) { ops[nops].kind = OP_PUSHX; ops[nops].len = 3; ops[nops].xlen = 1; nops++; }
     if (H >= 4) { ops[nops].kind = OP_PUSHX; ops[nops].len = H; ops[nops].xlen = 2; nops++; }
-    if (H >= 3) { ops[nops].kind = OP_PUSHX; ops[nops].len = 2; ops[nops].xlen = 2; nops++; }      /* explicit length == text length: source not terminated */
-    if (H >= 5) { ops[nops].kind = OP_PUSHX; ops[nops].len = 2; ops[nops].xlen = 4; nops++; }      /* explicit length beyond the end of the text (a buffer size) */
-    if (H >= 4) { ops[nops].kind = OP_PUSHP; ops[nops].len = 3; nops++; }                          /* positive (device-specific) error number with a text */
-    if (H >= 3) { ops[nops].kind = OP_PUSHQ; ops[nops].len = 2; ops[nops].q = 1; nops++; }          /* quotes: doubled on output, part by part when the text wraps */
-    if (H >= 5) { ops[nops].kind = OP_PUSHQ; ops[nops].len = 4; ops[nops].q = 1; nops++; }
-    if (H >= 4) { ops[nops].kind = OP_PUSHQ; ops[nops].len = 3; ops[nops].q = 2; nops++; }
-    if (H >= 3) { ops[nops].kind = OP_PUSHQ; ops[nops].len = 2; ops[nops].q = 3; nops++; }          /* an apostrophe: not doubled, not followed by anything */
+    if (rich && H >= 3) { ops[nops].kind = OP_PUSHX; ops[nops].len = 2; ops[nops].xlen = 2; nops++; }      /* explicit length == text length: source not terminated */
+    if (rich && H >= 5) { ops[nops].kind = OP_PUSHX; ops[nops].len = 2; ops[nops].xlen = 4; nops++; }      /* explicit length beyond the end of the text (a buffer size) */
+    if (rich && H >= 4) { ops[nops].kind = OP_PUSHP; ops[nops].len = 3; nops++; }                          /* positive (device-specific) error number with a text */
+    if (rich && H >= 3) { ops[nops].kind = OP_PUSHQ; ops[nops].len = 2; ops[nops].q = 1; nops++; }          /* quotes: doubled on output, part by part when the text wraps */
+    if (rich && H >= 5) { ops[nops].kind = OP_PUSHQ; ops[nops].len = 4; ops[nops].q = 1; nops++; }
+    if (rich && H >= 4) { ops[nops].kind = OP_PUSHQ; ops[nops].len = 3; ops[nops].q = 2; nops++; }
+    if (rich && H >= 3) { ops[nops].kind = OP_PUSHQ; ops[nops].len = 2; ops[nops].q = 3; nops++; }          /* an apostrophe: not doubled, not followed by anything */
     ops[nops++].kind = OP_PUSHN;
     ops[nops++].kind = OP_QUERY;
     ops[nops++].kind = OP_CLEAR;
@@ -266,7 +268,7 @@ int main(int argc, char ** argv) {
         m.key_size = sizeof (hkey_t); m.snap_size = sizeof (snap_t); m.nops = nops;
         m.load = st_load; m.save = st_save; m.apply = apply; m.opname = opname;
         m.max_states = 40000000ULL;
-        m.max_depth = (H * cap >= 24) ? 9 : 0;            /* the largest spaces (heap x capacity >= 24): every history of <= 9 operations instead of the fix-point */
+        m.max_depth = (cap >= 4 && H >= 8) ? 9 : 0;      /* the largest spaces: every history of <= 9 operations instead of the fix-point */
         mcx_run(&m);
         states += m.states; transitions += m.transitions; fix &= m.fixpoint; nrun++;
         if (m.depth_reached > maxdepth) maxdepth = m.depth_reached;
